@@ -1,11 +1,11 @@
 #!/bin/sh
 # seed_sweep.sh: applies every stored seeded change to /repo in turn, runs the property's quick
 # check and undoes the change. Development tool (not registered); /repo must be clean.
-cd "$(dirname "$0")"
+cd "$(dirname "$0")"; V="$(pwd)"
 [ -n "$(git -C /repo status --short)" ] && { echo "/repo is not clean"; exit 2; }
 for d in seeded/*/; do
   n=$(basename "$d"); p=$(jq -r .property "$d/meta.json")
-  git -C /repo apply "$d/patch.diff" || { echo "$n: patch does not apply"; continue; }
+  git -C /repo apply "$V/$d/patch.diff" || { echo "$n: patch does not apply"; continue; }
   out=$(./check "$p" quick </dev/null 2>&1)
   git -C /repo checkout -- .
   echo "== $n: $(echo "$out" | grep -c '^VIOLATION') violation line(s), $(echo "$out" | grep -c '^PROOF-LOST') proof-lost"
